@@ -39,6 +39,16 @@ pub const SKIP_IMPLICIT_CONST_FILE_INDEX: bool = true;
 /// `known.gnu_locviews` keeps observing the drop on one default gcc build.
 pub const SKIP_GNU_LOCVIEWS: bool = true;
 
+/// Pinned behaviour outside the judged domain of C12 (see the assumption "only compile units
+/// are generated" of props/c12.rs: `gimli::write` documents that it only writes
+/// `DW_UT_compile` units): `Dwarf::from` does not convert `.debug_types` at all (its units
+/// vanish from the output without an error) and turns DWARF 5 type units and skeleton units
+/// into plain compile units (type signature / type offset / DWO id of the header are lost).
+/// Executables built with `-fdebug-types-section` and DWARF 5 skeleton files are therefore only
+/// *observed* (stream counters `known.unit_kind.*`); a first difference of another kind is
+/// still a violation.  Reported in REPORT.md for the coordinator to decide.
+pub const ONLY_OBSERVE_UNSUPPORTED_UNIT_KINDS: bool = true;
+
 fn no_views(mut c: Cfg) -> Cfg {
     if SKIP_GNU_LOCVIEWS && c.cc == "gcc" && !c.has("-gno-variable-location-views") {
         c.extra.push("-gno-variable-location-views");
@@ -131,7 +141,10 @@ pub fn run(ctx: &mut Ctx) {
             "corpus"
         };
         let extra = || json!({"corpus": label, "build_dir": dir, "file": "prog"});
-        let oks = if SKIP_IMPLICIT_CONST_FILE_INDEX && cfg.cc == "gcc" && cfg.ver == 5 {
+        let oks = if ONLY_OBSERVE_UNSUPPORTED_UNIT_KINDS && (cfg.has("-fdebug-types-section") || (cfg.split && cfg.ver >= 5)) {
+            observe_known(ctx, &secs, &label, "known.unit_kind", &|d| d.starts_with(".units:") || d.contains("].header"));
+            0
+        } else if SKIP_IMPLICIT_CONST_FILE_INDEX && cfg.cc == "gcc" && cfg.ver == 5 {
             observe_known(ctx, &secs, &label, "known.implicit_const_file", &|d| (d.contains("DW_AT_decl_file") || d.contains("DW_AT_call_file")) && d.contains(".file"));
             0
         } else {
